@@ -103,6 +103,12 @@ def _deser(nt):
             if key not in cache:
                 cache[key] = DocObj(data["type"], data["name"], data.get("age"))
             return cache[key]
+        if "x" in data:
+            # the entry carries user keys that look like the standard short keys;
+            # without a key map in the header they must arrive untouched
+            for k in data["x"]:
+                if data.get(k) != "keep":
+                    raise KeyError(f"user key {k!r} of the entry was renamed or dropped")
         core = {k: v for k, v in data.items() if k in ("type", "v", "name", "age", "guid")}
         key = json.dumps(core, sort_keys=True)
         if key not in cache:
@@ -341,6 +347,14 @@ def seeded_cases(base_seed, index, tier, nt):
             um = rng.choice([None, {"foo": "bar", "n": index}])
             doc = S.encode_model(mt, key_map=km, value_map=vm, user_meta=um,
                                  version=rng.choice(["0.5.1", "0.9.0", "1.2.3"]))
+            if km is None:
+                # user keys named like the standard short keys, no key map declared
+                for ent in doc["nodes"]:
+                    if isinstance(ent[1], dict) and "type" in ent[1] and rng.random() < 0.5:
+                        ks = rng.sample(["s", "i", "k"], rng.randint(1, 3))
+                        for k in ks:
+                            ent[1][k] = "keep"
+                        ent[1]["x"] = ks
             cases.append({"engine": "peer", "case": "load",
                           "cls": "TypedTree" if mt.typed else "Tree", "doc": doc,
                           "expect": expect, "user_meta": um or {}})
